@@ -128,11 +128,16 @@ def multi_worker(kp, job):
     seed, idx = job
     rng = random.Random(seed * 472882027 + idx)
     records = []
-    for _ in range(40):
-        # the characters the grammar also reads as an accidental-display suffix (x X i I j Z y Y) are used only in cells
-        # none of whose notes has an accidental (the property's own restriction; chord notes share their signifiers)
+    # fixed probes of the listed findings K12 / K13 (signifiers that combine with a neighbour once sorted)
+    fixed = ['2.dd&&(O<', '4cWw', '8ee[y(', '2.GGwWw', '&(4ddk&&(&(', '4c>< 16Em<?'] if idx == 0 else []
+    for it in range(40 + len(fixed)):
+        # Signifiers of several characters are drawn from the families that stay apart when the sorted list is printed
+        # (one slur-start form, one slur-end form, the hidden tie [y) together with the stand-alone signifiers; the
+        # characters that COMBINE with a neighbour once sorted (< > ? x y W w T t) are left to the fixed probe of K12.
         with_acc = rng.random() < 0.4
-        pool = [m for m in MULTI if not (with_acc and any(ch in 'xXiIjZyY' for ch in m))]
+        start = rng.choice(['&(', '&&('])
+        end = rng.choice(['&)', '&&)'])
+        pool = [start, start, '(', end, end, ')', '[y', '['] + list("LJKk;'^~:/\\$OS_")
         pitches = ['c', 'dd', 'E', 'f#', 'b-'] if with_acc else ['c', 'dd', 'E', 'GG', 'a']
 
         def note():
@@ -140,6 +145,8 @@ def multi_worker(kp, job):
             pre = ''.join(d for d in ds if d in ('(', '&(', '&&(', '[', '[y') and rng.random() < 0.35)
             return pre + rng.choice(['4', '8', '16', '2.']) + rng.choice(pitches) + ''.join(ds)
         cell = note() if rng.random() < 0.6 else ' '.join(note() for _ in range(rng.randint(2, 3)))
+        if it < len(fixed):
+            cell = fixed[it]
         text = f'**kern\n*clefG2\n{cell}\n*-\n'
         viol = []
         try:
@@ -158,7 +165,8 @@ def multi_worker(kp, job):
             if errs2 or errs3:
                 viol.append(('reimport-errors', f'multi-character signifiers: the export of {cell!r} re-imports with errors', {'text': text}))
             elif t1 != t2:
-                viol.append(('idempotent', f'multi-character signifiers: {cell!r} exports {t1.split(chr(10))[2]!r}, then {t2.split(chr(10))[2]!r}', {'text': text}))
+                tag = 'combining-signifiers: ' if cell in fixed else ''
+                viol.append(('idempotent', f'{tag}multi-character signifiers: {cell!r} exports {t1.split(chr(10))[2]!r}, then {t2.split(chr(10))[2]!r}', {'text': text}))
             elif e1 != e2:
                 c1, c2 = e1.split(chr(10))[2], e2.split(chr(10))[2]
                 # same characters, cut differently: neighbouring signifiers that the grammar reads as ONE (finding K12)
